@@ -699,7 +699,8 @@ fn gen_free_element(
                 // output, a depender's, anybody's): an argument of `write`, never an edge
                 let x = rng.pick(all_outs);
                 let kw = if rng.chance(1, 3) { "after" } else { "include" };
-                g.push(format!("{ws}{pf}TXTPP#{kw} {}", rel_path(dir, x)));
+                // (two blanks after the name: never the same text as a real dependency line)
+                g.push(format!("{ws}{pf}TXTPP#{kw}  {}", rel_path(dir, x)));
             }
             b.group(g);
             b.push("after write".into());
